@@ -105,6 +105,11 @@ def run_case(case, ctx):
             truth = False
         else:
             same = ref.same_function(ra, rb)
+            if same and rel == "weights":
+                # same function through different (non proportional) weights, e.g. coincident control points:
+                # equality of rational curves is only promised up to refinement, not up to re-weighting
+                ctx.count("skipped_reweighted_same_function")
+                return
             if same:
                 truth = True
             else:
